@@ -88,6 +88,25 @@ CLAIMED = {
          "Tied to the code by exhaustive comparison (81 list-size configurations, length <= 4, thorough 5; 1.4M cases quick) and an independent "
          "rule oracle with a Born-rule reference.",
     design="§4 C20, §9", technique="Lean 4 proof (decision logic stated outright, setter invariant by induction) + ast-regenerated tables + exhaustive correspondence"),
+ "C13": dict(
+    text="Machine-checked (Lean 4, induction over arbitrary operation histories) that the stateful parts of the library as modelled are "
+         "transparent — the nine CompositeSystem caches under any get/delete history, the forward-model/data fields of loss objects, Settings "
+         "tolerance set/restore — together with the exact conditions under which re-used loss and algorithm objects equal fresh ones and proved "
+         "counter-examples where they do not; the state-machine model is tied to the real objects by a differential correspondence on attribute "
+         "masks, loss values, installed projections and the mutated argument array. Operand immutability, copy independence, read-only bases and "
+         "history-independence of ~75 operation kinds are OBSERVED on the real code by a snapshotting history fuzzer with fresh-world "
+         "differential and delta-debugged replays (not proved: Python aliasing is not modelled).",
+    design="§4 C13, §9", technique="Lean 4 state machines + invariants by induction over op lists + correspondence + snapshotting history fuzzer"),
+ "C15": dict(
+    text="Machine-checked (Lean 4): the seed plumbing of both simulation entry points over an abstract generator (integer seed => identical "
+         "repetitions, with its negation witness; Generator/None => consecutive stream segments; flow repetitions depend only on (seed_data, "
+         "index)), schedule- and partition-independence of the collected results for state-independent tasks (with a proved counter-example for "
+         "state-dependent ones), re-estimation, the depolarising mixture identity and convexity of the physical set, and an iff-characterisation "
+         "of the built-in physicality check for all estimator configurations. Tied to the real code by correspondence on synthetic results, "
+         "thresholds, the real repetition loop and the real depolarising channel. Bit-level reproducibility under repetition and under 2-4 "
+         "workers at each of the four joblib levels is OBSERVED on real small simulations (joblib/loky scheduling and MT19937/SeedSequence "
+         "quality are runtime behaviour the model cannot exhibit).",
+    design="§4 C15, §9", technique="Lean 4 model of seed plumbing / task scheduling + correspondence + differential re-execution across worker configurations"),
 }
 PENDING_REASON = "check not built yet in this round (build order in DESIGN.md §8); not claimed until its Lean model, theorems and correspondence exist"
 
